@@ -33,11 +33,11 @@ FailStep(cause) ==
   CASE cause = "bad_args" -> "parse_args"
     [] cause = "same_in_out" -> "same_path"
     [] cause = "missing_input" -> "open_input"
-    [] cause \in {"missing_keyring", "malformed_keyring"} -> "open_keyring"
+    [] cause \in {"missing_keyring", "malformed_keyring", "non_utf8_keyring"} -> "open_keyring"
     [] cause = "unknown_recipient" -> "find_recipient"
     [] cause = "unknown_sender" -> "find_sender"
     [] cause = "no_private_key" -> "need_private"
-    [] cause = "unset_password" -> "ask_pass"
+    [] cause \in {"unset_password", "non_utf8_password", "no_terminal"} -> "ask_pass"
     [] cause = "empty_name" -> "ask_name"
     [] cause = "wrong_password" -> "unlock"          \* key commands; password decryption: see below
     [] cause = "refused_exchange" -> "handshake"
@@ -51,8 +51,12 @@ FailStep(cause) ==
 FirstWrite(cmd) == CASE cmd \in {"encrypt", "pass_encrypt"} -> "write_header"
                      [] cmd \in {"decrypt", "pass_decrypt"} -> "first_chunk"
                      [] OTHER -> "write_block"
+\* the step that performs the first read of the input's data
+FirstRead(cmd) == CASE cmd \in {"encrypt", "pass_encrypt"} -> "chunks"
+                    [] OTHER -> "read_header"
 FailsAt(c, step) ==
   \/ FailStep(c.cause) = step
+  \/ c.cause \in InputCauses /\ step = FirstRead(c.cmd)
   \/ c.cause \in OutputCauses /\ step = FirstWrite(c.cmd)
   \/ c.cmd = "pass_decrypt" /\ c.cause \in {"wrong_password", "corrupt_header"} /\ step = "first_chunk"
 
@@ -100,7 +104,7 @@ Spec == Init /\ [][Step]_vars /\ WF_vars(Step)
 
 Finished == exit # -1
 Obs == [exit |-> exit, errline |-> errline, named |-> named,
-        out |-> IF cfg.cause \in {"output_device_full", "stdout_full"} THEN "n/a"
+        out |-> IF cfg.cause \in {"output_device_full", "stdout_full"} \cup InputCauses THEN "n/a"
                 ELSE IF cfg.outp = "stdout" /\ cfg.cause # "none" /\ cfg.cause \notin LateCauses(cfg.cmd) THEN "none"
                 ELSE IF cfg.outp = "stdout" THEN (IF cfg.cause = "none" THEN "full" ELSE "prefix1")
                 ELSE IF cell = "old" THEN "untouched" ELSE cell]
